@@ -13,4 +13,6 @@ mk good "/CN=localhost" "DNS:localhost,IP:127.0.0.1,IP:::1" 20200101000000Z 2120
 mk wrongname "/CN=other.example" "DNS:other.example" 20200101000000Z 21200101000000Z
 mk expired "/CN=localhost" "DNS:localhost,IP:127.0.0.1,IP:::1" 20200101000000Z 20210101000000Z
 openssl req -x509 -newkey rsa:2048 -nodes -keyout selfsigned.key -out selfsigned.pem -days 36500 -subj "/CN=localhost" -addext "subjectAltName=DNS:localhost,IP:127.0.0.1,IP:::1" 2>/dev/null
+
+mk dnsonly "/CN=localhost" "DNS:localhost" 20200101000000Z 21200101000000Z
 rm -f ca.srl
